@@ -1,72 +1,160 @@
 //! C12-L1 / C13 for the ABI canonical CBOR value codec (`echo_wasm_abi::canonical`).
-//! One harness per leading major type; the union of the `assume`s on byte 0 is exhaustive.
+//!
+//! Same scheme as `c12_edict`: the head byte of each item is concrete inside each unrolled
+//! loop iteration, the argument/payload bytes and the total length are symbolic; the union of
+//! the loops covers every head byte.
 use crate::kani;
 use echo_wasm_abi::{decode_value, encode_value};
 
-/// Re-materialises a decoded leaf value with a *syntactically concrete* variant so that
-/// symbolic execution of `encode_value` follows only that variant's arm (after the decoder's
-/// paths merge, the discriminant of its result is a symbolic `ite`, and CBMC would otherwise
-/// execute every encoder arm - including the map arm's whole stable-sort - under a false guard).
-/// Structure-preserving: the rebuilt value is equal to the decoded one.
-#[inline(always)]
-fn rebuild_leaf(v: &ciborium::value::Value) -> Option<ciborium::value::Value> {
-    use ciborium::value::Value;
-    match v {
-        Value::Integer(i) => Some(Value::Integer(*i)),
-        Value::Float(f) => Some(Value::Float(*f)),
-        Value::Bool(b) => Some(Value::Bool(*b)),
-        Value::Null => Some(Value::Null),
-        _ => None,
-    }
-}
+pub const N: usize = 10;
 
 /// accepted => canonical: any accepted byte string re-encodes to exactly itself.
 /// Kani's own checks (panic, bounds, overflow, unwinding) over the same run are C13.
-#[inline(always)]
-fn l1<const N: usize>(buf: [u8; N], len: usize) {
-    let input = &buf[..len];
-    if let Ok(v) = decode_value(input) {
-        let Some(v2) = rebuild_leaf(&v) else {
-            assert!(false, "leaf head decoded to a container/string value");
-            return;
-        };
-        core::mem::forget(v);
-        let out = encode_value(&v2);
-        match out {
-            Ok(bytes) => {
-                assert!(bytes.len() == len, "C12: accepted input re-encodes to a different length");
-                let mut i = 0;
-                while i < N {
-                    if i < len { assert!(bytes[i] == buf[i], "C12: accepted input re-encodes to different bytes"); }
-                    i += 1;
+#[inline(never)]
+fn l1(buf: &[u8; N], len: usize) {
+    match decode_value(&buf[..len]) {
+        Ok(v) => {
+            match encode_value(&v) {
+                Ok(out) => {
+                    assert!(out.len() == len, "ABI CBOR: accepted input re-encodes to a different length");
+                    let mut flat = [0u8; N];
+                    flat[..len].copy_from_slice(&out);
+                    let mut i = 0;
+                    while i < N {
+                        if i < len { assert!(flat[i] == buf[i], "ABI CBOR: accepted input re-encodes to different bytes"); }
+                        i += 1;
+                    }
+                    core::mem::forget(out);
                 }
-                core::mem::forget(bytes);
+                Err(e) => { core::mem::forget(e); assert!(false, "ABI CBOR: accepted input does not re-encode"); }
             }
-            Err(e) => { core::mem::forget(e); assert!(false, "C12: accepted input does not re-encode"); }
+            core::mem::forget(v);
         }
-        core::mem::forget(v2);
+        Err(e) => core::mem::forget(e),
     }
 }
 
-/// Runs `l1` on `[b0, rest..]` for a *concrete* head byte, so that symbolic execution
-/// follows only that head's decoder arm; the argument bytes stay symbolic.
 #[inline(always)]
-fn l1_head<const N: usize>(b0: u8, rest: [u8; N], len: usize) {
-    let mut buf = [0u8; 9];
-    buf[0] = b0;
-    let mut i = 0;
-    while i < N { buf[1 + i] = rest[i]; i += 1; }
-    l1::<9>(buf, len);
+fn heads(lo: u16, hi: u16, len_lo: usize, len_hi: usize) {
+    let mut buf: [u8; N] = kani::any();
+    let len: usize = kani::any();
+    kani::assume(len >= len_lo && len <= len_hi);
+    let mut h = lo;
+    while h <= hi {
+        buf[0] = h as u8;
+        l1(&buf, len);
+        h += 1;
+    }
 }
 
-//@ tier=quick timeout=900 bits=64 unwind=2 unwindset="read_uint=10;c12_abi::l1=11;memcmp=11" fns=echo_wasm_abi::canonical::decode_value,echo_wasm_abi::canonical::encode_value
-//@ bounds="head byte 0x18..0x1b / 0x38..0x3b (integers with 1,2,4,8 argument bytes), every value of the argument bytes, exact length"
-//@ desc="ABI CBOR L1 ints: non-minimal widths rejected, accepted ones re-encode to themselves, negative range limit typed"
+//@ also=C13 tier=quick timeout=1500 mem=10 bits=80 unwind=12 unwindset="c12_abi::heads=34;memcmp=12" fns=echo_wasm_abi::canonical::decode_value,dec_value,read_len,read_uint,echo_wasm_abi::canonical::encode_value,enc_int,write_major
+//@ bounds="every byte string of length 1..=10 whose first byte is a major-0 head (0x00..=0x1f)"
+//@ desc="ABI unsigned ints: non-minimal widths, reserved and indefinite info rejected; accepted => re-encodes to itself; nothing panics"
 proof! {
     #[cfg_attr(kani, kani::stub(alloc::fmt::format, crate::stubs::fmt_format))]
-    fn c12_abi_l1_intarg() {
-        let rest: [u8; 8] = kani::any();
-        l1_head(0x19, rest, 3);
+    fn c12_abi_uint_heads() { heads(0x00, 0x1f, 1, N); reach!(); }
+}
+
+//@ also=C13 tier=quick timeout=1500 mem=10 bits=80 unwind=12 unwindset="c12_abi::heads=34;memcmp=12" fns=echo_wasm_abi::canonical::decode_value,dec_value,read_len,enc_int,write_major
+//@ bounds="every byte string of length 1..=10 whose first byte is a major-1 head (0x20..=0x3f)"
+//@ desc="ABI negative ints: accepted => canonical; magnitudes beyond i64 are rejected with a typed error, not wrapped"
+proof! {
+    #[cfg_attr(kani, kani::stub(alloc::fmt::format, crate::stubs::fmt_format))]
+    fn c12_abi_nint_heads() { heads(0x20, 0x3f, 1, N); reach!(); }
+}
+
+//@ also=C13 tier=quick timeout=1500 mem=10 bits=80 unwind=12 unwindset="c12_abi::heads=34;memcmp=12" fns=echo_wasm_abi::canonical::decode_value,dec_value
+//@ bounds="every byte string of length 1..=10 whose first byte is a tag head (0xc0..=0xdf) or a simple-value head other than the three float heads (0xe0..=0xf8, 0xfc..=0xff)"
+//@ desc="ABI tags and unsupported simple values are rejected; false/true/null accepted only as exactly one byte"
+proof! {
+    #[cfg_attr(kani, kani::stub(alloc::fmt::format, crate::stubs::fmt_format))]
+    fn c12_abi_tag_simple_heads() {
+        heads(0xc0, 0xf8, 1, N);
+        heads(0xfc, 0xff, 1, N);
+        reach!();
+    }
+}
+
+//@ also=C13 tier=quick timeout=1800 mem=12 bits=24 unwind=12 unwindset="memcmp=12" fns=echo_wasm_abi::canonical::dec_value,read_f,is_exact_int,enc_float,write_half,half::f16::to_f64,half::f16::from_f64
+//@ bounds="every byte string of length 1..=4 with head 0xf9 (all 2^16 half-precision patterns, short and trailing input)"
+//@ desc="ABI f16: accepted => re-encodes to exactly the same 3 bytes (integral values must have been ints; NaN has one encoding)"
+proof! {
+    #[cfg_attr(kani, kani::stub(alloc::fmt::format, crate::stubs::fmt_format))]
+    fn c12_abi_f16() { heads(0xf9, 0xf9, 1, 4); reach!(); }
+}
+
+//@ also=C13 tier=thorough timeout=3600 mem=14 bits=40 unwind=12 unwindset="memcmp=12" fns=echo_wasm_abi::canonical::dec_value,read_f,is_exact_int,can_fit_f16,enc_float,write_f32
+//@ bounds="every byte string of length 1..=6 with head 0xfa (all 2^32 single-precision patterns)"
+//@ desc="ABI f32: accepted => canonical (values that fit f16 or are integral are rejected, the rest re-encode as the same 5 bytes)"
+proof! {
+    #[cfg_attr(kani, kani::stub(alloc::fmt::format, crate::stubs::fmt_format))]
+    fn c12_abi_f32() { heads(0xfa, 0xfa, 1, 6); reach!(); }
+}
+
+//@ also=C13 tier=quick timeout=1800 mem=12 bits=80 unwind=12 unwindset="c12_abi::heads=34;memcmp=12;from_utf8=12;run_utf8_validation=12" fns=echo_wasm_abi::canonical::dec_value,read_len,enc_bytes
+//@ bounds="every byte string of length 1..=10 whose first byte is a byte-string head (0x40..=0x5f); payload symbolic"
+//@ desc="ABI byte strings: declared length checked against the remaining input; accepted => canonical"
+proof! {
+    #[cfg_attr(kani, kani::stub(alloc::fmt::format, crate::stubs::fmt_format))]
+    fn c12_abi_bytes_heads() { heads(0x40, 0x5f, 1, N); reach!(); }
+}
+
+/// Runs `l1` on `[h0, args.., ]` where the total length is the *concrete* `len`.
+#[inline(always)]
+fn fixed(h0: u8, len: usize) {
+    let mut buf: [u8; N] = kani::any();
+    buf[0] = h0;
+    l1(&buf, len);
+}
+
+//@ also=C12 tier=quick timeout=1800 mem=12 bits=72 unwind=12 unwindset="memcmp=12" fns=echo_wasm_abi::canonical::dec_value,read_len,read_uint
+//@ bounds="array and map heads with an explicit 1/2/4/8-byte length (0x98..=0x9b, 0xb8..=0xbb) followed by exactly the length bytes and no elements; all values of the length bytes"
+//@ desc="C13: a declared element count far beyond the input is answered with a typed error - no capacity-overflow panic and no allocation sized by the declared count"
+proof! {
+    #[cfg_attr(kani, kani::stub(alloc::fmt::format, crate::stubs::fmt_format))]
+    fn c13_abi_declared_count_beyond_input() {
+        fixed(0x98, 2); fixed(0x99, 3); fixed(0x9a, 5); fixed(0x9b, 9);
+        fixed(0xb8, 2); fixed(0xb9, 3); fixed(0xba, 5); fixed(0xbb, 9);
+        reach!();
+    }
+}
+
+const ELEM_HEADS: [u8; 20] = [0x00, 0x17, 0x18, 0x19, 0x1b, 0x1c, 0x1f, 0x20, 0x38, 0x3b, 0x40, 0x41, 0x60, 0x61, 0x80, 0xa0, 0xc0, 0xf4, 0xf6, 0xf7];
+
+//@ also=C13 tier=quick timeout=2400 mem=14 bits=64 unwind=22 unwindset="memcmp=12;from_utf8=12;run_utf8_validation=12" fns=echo_wasm_abi::canonical::dec_value,enc_value,enc_len
+//@ bounds="one-element arrays (head 0x81) whose element head ranges over 20 representative heads of every major type (concrete loop); element argument/payload bytes symbolic; total length 2..=10 symbolic"
+//@ desc="ABI arrays: accepted => canonical, element errors propagate, trailing bytes rejected"
+proof! {
+    #[cfg_attr(kani, kani::stub(alloc::fmt::format, crate::stubs::fmt_format))]
+    fn c12_abi_array_of_one() {
+        let mut buf: [u8; N] = kani::any();
+        let len: usize = kani::any();
+        kani::assume(len >= 2 && len <= N);
+        buf[0] = 0x81;
+        let mut k = 0;
+        while k < 20 {
+            buf[1] = ELEM_HEADS[k];
+            l1(&buf, len);
+            k += 1;
+        }
+        reach!();
+    }
+}
+
+//@ also=C13 tier=quick timeout=2400 mem=14 bits=24 unwind=8 unwindset="memcmp=12;insertion_sort=4;insert_tail=4" fns=echo_wasm_abi::canonical::dec_value,enc_value
+//@ bounds="two-entry maps a2 18 x f6 18 y f6 with symbolic key bytes x, y (all 2^16 pairs), and the same with a trailing byte"
+//@ desc="ABI maps: accepted => keys strictly ascending by encoded bytes (duplicates and descending order rejected, not normalised) and re-encodes to itself"
+proof! {
+    #[cfg_attr(kani, kani::stub(alloc::fmt::format, crate::stubs::fmt_format))]
+    fn c12_abi_map_key_order() {
+        let (x, y): (u8, u8) = (kani::any(), kani::any());
+        let buf: [u8; N] = [0xa2, 0x18, x, 0xf6, 0x18, y, 0xf6, kani::any(), 0, 0];
+        let len: usize = if kani::any() { 7 } else { 8 };
+        if let Ok(v) = decode_value(&buf[..len]) {
+            assert!(len == 7 && x >= 24 && y >= 24 && x < y, "ABI CBOR: map with unsorted, duplicate or non-minimal keys accepted");
+            core::mem::forget(v);
+        }
+        l1(&buf, 7);
         reach!();
     }
 }
